@@ -111,6 +111,12 @@ def _task(arg):
             judge_input(ws, data, "mutation", list(fault), acc, (idx, 1 + cost, len(seen), m),
                         readonly=(cost == 0))
         acc.add("single_mutations", m)
+        if cost == 0 or cfg["all_offsets"] or len(seen) <= cfg.get("subst_instances", 10**9):
+            m = 0
+            for fault, data in streams.prefix_substitutions(enc, lay, ws.flexible, ws.is_request_header):
+                m += 1
+                judge_input(ws, data, "prefix", list(fault), acc, (idx, 3 + cost, len(seen), m))
+            acc.add("prefix_substitutions", m)
         if cfg["pairs"] and cost == 0:
             m = 0
             for fault, data in streams.pair_overwrites(enc, crit[: cfg["pair_offsets"]]):
@@ -154,6 +160,8 @@ def run_c10(tier):
         "instance" + (" and for all k=1 instances" if cfg["all_offsets"] else
                       ", at the layout-critical offsets (length prefixes, counts, tags, sizes, markers) for k=1 instances")
         + ("; (c) every pair of overwrites on the layout-critical offsets of the base instance" if cfg["pairs"] else "")
+        + "; (d) every length / count / tag / size / marker prefix of every such instance replaced as a whole by hostile encodings "
+        "(maximal and over-long varints, values around 2^31 and 2^35, negative and huge fixed-width lengths, all 256 marker bytes)"
         + f". Each input is a distinct fault case. Verdict per input: finishes within {BUDGET_A}+{BUDGET_B}*len "
         "monitored steps; returns an entity (which must re-encode and re-decode stably) or raises SerialError / "
         "ValueError / OverflowError; position never beyond the input."
